@@ -21,7 +21,7 @@ OP_KIND = {"+": "Add", "-": "Sub", "*": "Mul", "/": "Div", "and": "And", "or": "
            ">": ("Comparison", "Greater"), ">=": ("Comparison", "GreaterEqual")}
 UNS = ["-", "not"]
 TYS = ["int", "float", "str", "bool"]
-TY_RT = {"int": "Int", "float": "Float", "str": "String", "bool": "Bool"}
+TY_RT = {"int": "Int", "float": "Float", "str": "String", "bool": "Bool", "void": "Void"}
 
 
 class Expander:
